@@ -190,6 +190,11 @@ func apiSetup(cfg apiCfg, errPageExists bool) (*apiEnv, error) {
 
 var apiTrees = map[string]string{}
 
+var fixedSigs = map[apiOp]string{
+	{"EvalString", "sameprintI"}: "OUT s:2|1, 2",
+	{"EvalString", "sameprintS"}: "OUT s:11|[1 2]",
+}
+
 // close leaves the tree in place for the next case of this worker (the scratch directory is removed with the run).
 func (e *apiEnv) close() { os.Chdir("/") }
 
@@ -423,6 +428,14 @@ func apiFamily(raw json.RawMessage) Result {
 				res.Status, res.Kind = "viol", "history-dependence"
 				res.Msg = fmt.Sprintf("operation %d %v returned %q; the specification says it %s whatever ran before", i+1, o.Op, sig,
 					map[bool]string{true: "succeeds", false: "fails"}[c.ExpOk[i]])
+				res.Tags = append(res.Tags, o.Op.K+":"+o.Op.Page)
+				return res
+			}
+			// operations whose result does not depend on the per-call data have ONE right answer, known beforehand (the
+			// solo run of the same process may itself be served from state an earlier solo run left behind)
+			if want, fixed := fixedSigs[o.Op]; fixed && sig != want {
+				res.Status, res.Kind = "viol", "history-dependence"
+				res.Msg = fmt.Sprintf("operation %d %v returned %q, the right answer is %q", i+1, o.Op, sig, want)
 				res.Tags = append(res.Tags, o.Op.K+":"+o.Op.Page)
 				return res
 			}
